@@ -183,12 +183,18 @@ func deepCopyTree(x any) any {
 		}
 		return m
 	case []any:
+		if t == nil {
+			return t
+		}
 		a := make([]any, len(t), cap(t))
 		for i, v := range t {
 			a[i] = deepCopyTree(v)
 		}
 		return a
 	case []string:
+		if t == nil {
+			return t
+		}
 		return append(make([]string, 0, cap(t)), t...)
 	}
 	return x
